@@ -215,6 +215,7 @@ func runC18(p *Prog, r *Report) {
 		}
 	}
 	r.OK("own code/emission vocabulary", "", fmt.Sprintf("%d emission chains scanned, %d denied constructs", len(chains), nDeny))
+	pkgLevelStateRule(p, r, "C18.R5")
 }
 
 func appendGeneratedChainOK(p *Prog, c *Chain) (bool, string) {
